@@ -87,14 +87,45 @@ def gen(rng):
             s["pumps"].insert(int(rng.integers(0, len(s["pumps"]) + 1)), spare)
         return s
     s = netgen.gen_heat_loop(rng)
+    if rng.random() < 0.35:
+        s["c03_transient"] = [float(x) for x in rng.uniform(0.7, 1.3, int(rng.integers(2, 5)))]
+        return s
     s["options"]["mode"] = "hydraulics"
     return s
 
 
-def oracle(spec):
-    net, e = netgen.try_run(spec, **oracles.TIGHT)
-    if e is not None:
-        return {"status": "skip:" + type(e).__name__}
+def transient_sequence(spec):
+    """a short transient step sequence (internal tables re-used from step to step): every set-point clause after every step"""
+    import pandapipes as pp
+    net = netgen.build(spec)
+    base = net.sink.mdot_kg_per_s.values.copy() if len(net.sink) else None
+    out = None
+    for step, f in enumerate(spec["c03_transient"]):
+        if base is not None:
+            net.sink["mdot_kg_per_s"] = base * f
+        try:
+            pp.pipeflow(net, **dict(spec["options"], **dict(oracles.TIGHT, mode="sequential", transient=True, dt=60.0,
+                                                            simulation_time_step=step)))
+        except Exception as e:
+            return {"status": "skip:transient:" + type(e).__name__}
+        out = oracle(spec, net=net)
+        if out.get("failures"):
+            for fl in out["failures"]:
+                fl["fingerprint"] += ":transient-step"
+                fl.setdefault("detail", {})["step"] = step
+            break
+    out["hash"] = out.get("hash", "") + "T%d" % len(spec["c03_transient"])
+    out["tags"] = ["transient"]
+    return out
+
+
+def oracle(spec, net=None):
+    if net is None and spec.get("c03_transient"):
+        return transient_sequence(spec)
+    if net is None:
+        net, e = netgen.try_run(spec, **oracles.TIGHT)
+        if e is not None:
+            return {"status": "skip:" + type(e).__name__}
     fails = []
 
     def fail(fp, clause, **detail):
